@@ -50,6 +50,9 @@ mod runtime;
 mod send_stream;
 mod work_limiter;
 
+#[cfg(quinn_rs_quinn_verif)]
+pub mod verif_hooks;
+
 #[cfg(not(wasm_browser))]
 pub(crate) use std::time::{Duration, Instant};
 #[cfg(wasm_browser)]
